@@ -125,6 +125,56 @@ def _solve_worker(job):
     return out
 
 
+def _consts_of(f, cache):
+    i = f.get_id()
+    if i in cache:
+        return cache[i]
+    out = set()
+    stack = [f]
+    seen = set()
+    while stack:
+        x = stack.pop()
+        if x.get_id() in seen:
+            continue
+        seen.add(x.get_id())
+        if z3.is_quantifier(x):
+            stack.append(x.body())
+            continue
+        if z3.is_app(x):
+            d = x.decl()
+            if d.kind() == z3.Z3_OP_UNINTERPRETED:
+                out.add(d.name())
+            stack.extend(x.children())
+    cache[i] = out
+    return out
+
+
+def slice_hyps(hyps, goal):
+    """cone of influence: keep the hypotheses that (transitively) share an uninterpreted symbol with the goal.
+    Dropping the others only strengthens the obligation, and they cannot be needed since they share no symbol."""
+    cache = {}
+    flat = []
+    for h in hyps:
+        flat.extend(_flatten_and(h))
+    syms = set(_consts_of(goal, cache))
+    remaining = [(h, _consts_of(h, cache)) for h in flat]
+    keep = []
+    changed = True
+    while changed:
+        changed = False
+        rest = []
+        for h, cs in remaining:
+            if cs & syms or not cs:
+                keep.append(h)
+                if cs - syms:
+                    syms |= cs
+                    changed = True
+            else:
+                rest.append((h, cs))
+        remaining = rest
+    return keep
+
+
 def _flatten_and(f):
     if z3.is_and(f):
         out = []
@@ -376,8 +426,9 @@ def finish(ctx: Ctx, checker_cmd: str) -> int:
                 if w is not None:
                     rep = w
         if kf is not None and (rep is None or kf.get('needs_confirmed', False) is False or rep.get('confirmed')):
+            if not any(k is kf for k, _ in known_hits):
+                lines.append('KNOWN-FINDING: property=%s %s [first failing obligation: %s]' % (pid, kf['text'], o.name))
             known_hits.append((kf, o))
-            lines.append('KNOWN-FINDING: property=%s %s [%s]' % (pid, kf['text'], o.name))
             continue
         violations += 1
         path = os.path.join(VERIF, 'replays', '%s-%s.json' % (pid, re.sub(r'[^A-Za-z0-9_.-]+', '_', o.name)[-120:]))
